@@ -74,8 +74,10 @@ PROPS = {
              "Every delivery to the recording callback is checked against the three stated rules (at most one delivery per flooded packet across any relaying peers, "
              "one-hop only from its source, originator broadcast only from a validator-role peer); entitled-but-dropped packets make the run inconclusive so the "
              "check cannot pass vacuously; a second sub-check floods up to two ring lengths of other digests around watched packets and demands suppression of every "
-             "re-relay inside the guaranteed remembering distance (19x500-1 later digests), with bias to bucket and ring boundaries. Exploration.",
-             "peers and roles are set directly through the hook (no handshake or discovery); self-sourced flooded packets and re-relays beyond the digest ring are not decided", "DESIGN §8 (C33)"),
+             "re-relay inside the guaranteed remembering distance (19x500-1 later digests), with bias to bucket and ring boundaries; a third one hands copies of "
+             "one flooded packet to the node through 2-8 peers from goroutines released together (hundreds of rounds per case) and demands at most one delivery. Exploration.",
+             "peers and roles are set directly through the hook (no handshake or discovery); self-sourced flooded packets and re-relays beyond the digest ring are not decided; "
+             "the concurrent sub-check does not own the Go scheduler: its invariant holds for every schedule, detection of a broken node is statistical", "DESIGN §8 (C33)"),
     "C12": P("hsvc", "rapid-generated v3 transactions with spelling variants against an independent ICON serialization reference, a 3x JSON<->stored-form round trip "
              "and single-member metamorphic changes",
              "Every generated transaction's id equals an independently computed ICON hash, and every field plus signature validity survives repeated conversion to "
@@ -252,7 +254,7 @@ PROPS = {
     "C36": P("hdata2", "rapid; round trip plus must-accept/must-reject against the regular language ^(hx|cx)[0-9a-f]{40}$ with 15 near-miss mutation kinds; native go fuzz of the strict parser in thorough",
              "The strict parser's verdict is compared with the regular language for 20k addresses and candidates per run, including case, length, prefix and unicode "
              "near misses, and all byte forms are round-tripped into stale receivers. Exploration.",
-             "the canonical form is taken from server/jsonrpc/validator.go", "DESIGN §7 (C36)", fuzz=[("FuzzC36Strict", 60)]),
+             "the canonical form is the one server/jsonrpc/validator.go states for t_addr; that validator and jsonrpc.Address are run on every candidate as well", "DESIGN §7 (C36)", fuzz=[("FuzzC36Strict", 60)]),
 }
 
 # properties not (yet) claimed -> reason
